@@ -24,6 +24,7 @@ def run(ctx: Ctx, chk) -> None:
     chk.run_rule(delim2, ctx)
     norm1(ctx, chk, "NORM-1")
     chk.run_rule(stateless1, ctx)
+    chk.run_rule(encid1, ctx)
 
 
 def delim1(ctx: Ctx, chk) -> None:
@@ -260,6 +261,53 @@ def norm1(ctx: Ctx, chk, rule: str) -> None:
 
 
 CACHE_DECORATORS = ("cache", "lru_cache", "cached_property", "functools.cache", "functools.lru_cache", "functools.cached_property")
+
+
+def encid1(ctx: Ctx, chk, rule: str = "ENC-ID-1") -> None:
+    chk.rule(rule, "encoding writes the message's own field values: no field class of MessageSchema overrides _serialize with anything but the identity (return the value it was given, or the base class result for it), and the schema has no pre_dump hook that rewrites the message")
+    I = ctx.I
+    schema, hooks = schema_hooks(ctx)
+    n = 0
+    for name in codec.FIELD_ORDER:
+        rec = codec.field_decl(ctx, schema, name)
+        if rec is None:
+            raise AnalysisError(f"anchor vanished: MessageSchema.{name}")
+        n += 1
+        chk.instance(rule)
+        key = f"MessageSchema.{name}::_serialize"
+        kind = rec["kind"]
+        d = I.prog.lookup_fullname(kind) if isinstance(kind, str) and kind.startswith("aiomysensors") else None
+        if d is None or d.kind != "class":
+            chk.ok(rule, key, f"library field {kind}: serialises the attribute value", ctx.loc(schema.module, rec["call"]), sample=False)
+            continue
+        ser = d.obj.find_method("_serialize")
+        if ser is None:
+            chk.ok(rule, key, f"{d.obj.name} does not override _serialize", ctx.loc(schema.module, rec["call"]), sample=n <= 2)
+            continue
+        vparam = ser.positional_params[1] if len(ser.positional_params) > 1 else None
+        bad = None
+        for r in [x for x in ctx.own_nodes(ser) if isinstance(x, ast.Return)]:
+            v = r.value
+            if isinstance(v, ast.Name) and v.id == vparam:
+                continue
+            if isinstance(v, ast.Call) and isinstance(v.func, ast.Attribute) and v.func.attr == "_serialize" and isinstance(v.func.value, ast.Call) and norm(v.func.value.func) == "super" and v.args and isinstance(v.args[0], ast.Name) and v.args[0].id == vparam:
+                continue
+            bad = r
+            break
+        if bad is None:
+            chk.ok(rule, key, f"{d.obj.name}._serialize returns the value it was given", ser.where)
+        else:
+            chk.refute(rule, key, f"{d.obj.name}._serialize can return `{norm(bad.value)[:60] if bad.value is not None else None}` instead of the field value: the encoded line does not carry the message's own {name}, so decoding it yields a different message (and replies are not addressed as constructed)", ctx.loc(ser, bad))
+    for h in hooks["pre_dump"]:
+        chk.instance(rule)
+        p1 = h.positional_params[1] if len(h.positional_params) > 1 else None
+        rets = [x for x in ctx.own_nodes(h) if isinstance(x, ast.Return)]
+        stores = [x for x in ctx.own_nodes(h) if isinstance(x, (ast.Assign, ast.AugAssign)) and any(isinstance(t, (ast.Attribute, ast.Subscript)) for t in (x.targets if isinstance(x, ast.Assign) else [x.target]))]
+        if rets and all(isinstance(r.value, ast.Name) and r.value.id == p1 for r in rets) and not stores:
+            chk.ok(rule, f"{h.fq}::pre_dump", "returns the object unchanged", h.where)
+        else:
+            chk.refute(rule, f"{h.fq}::pre_dump", f"the pre_dump hook {h.name} rewrites the message before it is encoded", h.where)
+    chk.floor(rule, "schema fields", n, 6)
 
 
 def stateless1(ctx: Ctx, chk) -> None:
